@@ -239,8 +239,19 @@ func runResumed(s *kernel.Sim, c *scen.Case, p params) {
 	if p.Cmd0 {
 		cmd = 0
 	}
+	// how the session came to be: encryption merely optional on both sides, or wanted by the client
+	// (so that an unauthenticated session is still one on which security was enacted), and, for
+	// the unauthenticated kinds, authentication refused outright or left optional on both sides
+	// with overlapping method lists (a method is then negotiated although none runs)
+	lvE1 := []security.SecurityLevel{security.SecurityOptional, security.SecurityPreferred, security.SecurityRequired}[t.Choose("est.enc", 3)]
+	if !keyed {
+		lvE1 = security.SecurityOptional
+	}
+	if !authed && t.Choose("est.auth", 2) == 1 {
+		lvA = security.SecurityOptional
+	}
 	mkC1 := func() *security.SecurityConfig {
-		cfg := hs.Cfg(lvA, security.SecurityOptional, m, hs.AES, cmd)
+		cfg := hs.Cfg(lvA, lvE1, m, hs.AES, cmd)
 		cfg.SessionCache = cliCache
 		return cfg
 	}
@@ -521,6 +532,12 @@ var serverDevs = []namedDev{
 	{"advertise-fs-select-claimtobe", puppet.Dev{AuthAnswer: "YES", AdvertiseExtra: "FS,CLAIMTOBE", SelectBit: puppet.BitClaimToBe}},
 	{"select-several-bits", puppet.Dev{AuthAnswer: "YES", SelectBit: puppet.BitClaimToBe | puppet.BitToken}},
 	{"select-zero", puppet.Dev{AuthAnswer: "YES", SelectZero: true}},
+	// two-step selections: an invalid answer first, then a single bit - the second answer is judged
+	// against what the client's retry logic made of the first
+	{"several-bits-then-claimtobe", puppet.Dev{AuthAnswer: "YES", SelectSeq: []int{puppet.BitClaimToBe | puppet.BitToken | puppet.BitFS, puppet.BitClaimToBe}}},
+	{"unoffered-bits-then-claimtobe", puppet.Dev{AuthAnswer: "YES", SelectSeq: []int{puppet.BitClaimToBe | puppet.BitFS, puppet.BitClaimToBe}}},
+	{"zero-then-claimtobe", puppet.Dev{AuthAnswer: "YES", SelectSeq: []int{0, puppet.BitClaimToBe}}},
+	{"all-bits-twice-then-claimtobe", puppet.Dev{AuthAnswer: "YES", SelectSeq: []int{0xffff, 0xffff, puppet.BitClaimToBe}}},
 	{"postauth-DENIED", puppet.Dev{ReturnCode: "DENIED"}},
 	{"postauth-in-clear", puppet.Dev{PostAuthClear: true}},
 	{"postauth-other-key", puppet.Dev{PostAuthOther: true}},
